@@ -108,7 +108,7 @@ def check_lookup(case, ctx):
 
 
 # ------------------------------------------------------------------------------------ malformed
-ROOT_FAULTS = ["", "n", "mm", "m'", " m", "m ", "Mm", "x", "1", "/m", "m'", "mh", "µ", "ｍ"]
+ROOT_FAULTS = ["", "n", "mm", "m'", "Mm", "x", "1", "/m", "m'", "mh", "µ", "ｍ", "m.", "_m"]
 JUNK = ["a", "abc", "0x1f", "0b1", "0o7", "1.5", "1e3", "12a", "a12", "'", "h", "1''", "1hh", "1'h", "1h'", "--1", "1-",
         "'1", "h1", "1'1", "None", "1,2", "1;2", "0x", "²", "1²", "٣x", "1\x00", "\\1"]
 RANGE = ["-1", "-1'", "-1h", "-2147483648'", "-2147483649'", "2147483648'", "2147483648h", "4294967295'", "4294967296",
@@ -199,6 +199,7 @@ def _safe_str(o):
 
 # ------------------------------------------------------------------------------------ lenient tokens (counted only)
 LENIENT = [" 1", "1 ", "+1", "1_0", "１", "٣", "-0", "-0'", "01", "000'", "+0h", "\t5", "5\n", "1H", "1 '"]
+LENIENT_WHOLE = [" m/0", "m /0", "m/0 ", "\tm/1'", "m/ 1/2", "m/ "]   # whitespace around the root / components
 
 
 def check_lenient(case, ctx):
@@ -217,6 +218,9 @@ def check_lenient(case, ctx):
             raise Violation("C17/lenient/wrong-number", "token %r read as %r, obvious value %d" % (tok, p.to_list(), val))
     else:
         ctx.count("lenient_rejected")
+    for whole in LENIENT_WHOLE:
+        st_, p = call(Bip32Path.parse, whole)
+        ctx.count("whitespace-padded-accepted" if st_ == "ok" else "whitespace-padded-rejected")
     st_, p = call(Bip32Path.parse, "m/1/2/")
     if st_ == "ok":
         ctx.count("trailing-slash-accepted")
@@ -286,6 +290,8 @@ def classify_path(s):
 
     'lenient' = the statement does not classify the string (int()-tolerated tokens, trailing '/')."""
     parts = s.split("/")
+    padded = any(p != p.strip() for p in parts)      # whitespace around the root or a component: unclassified
+    parts = [p.strip() for p in parts]
     if parts[0] not in ("m", "M"):
         return ("malformed", "root")
     comps = parts[1:]
@@ -299,7 +305,7 @@ def classify_path(s):
     if any(c == "" for c in comps):
         return ("malformed", "empty-inner")
     out = []
-    lenient = trailing
+    lenient = trailing or padded
     for c in comps:
         m = _TOK.match(c)
         if m and c.isascii():
